@@ -398,6 +398,44 @@ def rule_D_calls(toks, au, names):
     return out
 
 
+# ------------------------------------------------------------------ rule A (detached tasks)
+def rule_A_spawn(toks, au):
+    """tokio::spawn(async move { B }[.instrument(S)]);   as a statement whose JoinHandle is discarded
+         ->   { B }
+    i.e. the detached task's body is executed at the spawn point (sequentialisation).  Accepted only when B does not
+    mention `self`, `return` or `?` (it reads moved captures only, so its inputs are fixed at the spawn point); what
+    is lost is the interleaving of B with the spawner's later statements."""
+    i = 0
+    while i < len(toks):
+        if is_id(toks[i], "tokio") and texts(toks, i + 1, 4) == [":", ":", "spawn", "("] and _stmt_pos(toks[:i]) \
+                and is_id(toks[i + 5], "async"):
+            close = match_close(toks, i + 4)
+            if not (close + 1 < len(toks) and is_p(toks[close + 1], ";")):
+                i += 1
+                continue
+            j = i + 6
+            if is_id(toks[j], "move"):
+                j += 1
+            if not is_p(toks[j], "{"):
+                i += 1
+                continue
+            bclose = match_close(toks, j)
+            rest = [t.text for t in toks[bclose + 1:close]]
+            if rest and not (rest[:3] == [".", "instrument", "("] and match_close(toks, bclose + 3) + 1 >= close - (1 if rest[-1] == "," else 0)):
+                raise Undecided("tokio::spawn argument is not `async move { .. }[.instrument(..)]`")
+            body = toks[j:bclose + 1]
+            btxt = [t.text for t in body if t.kind != "str"]
+            if "self" in btxt or "return" in btxt or "?" in btxt:
+                raise Undecided("spawned task body mentions self / return / ?: outside the sequentialisation rule")
+            au.note("A", "detached tokio::spawn(async move { B }) -> { B } at the spawn point")
+            body[0] = body[0].copy()
+            body[0].ws = toks[i].ws
+            toks[i:close + 2] = body
+            continue
+        i += 1
+    return toks
+
+
 # ------------------------------------------------------------------ rule A
 def rule_A(toks, au):
     # tokio::join!(a, b) (await both to completion) -> vx_join2(a, b)
@@ -740,6 +778,10 @@ def _body_open(toks, i):
             depth += 1
         elif tt.kind == "p" and tt.text in (")", "]"):
             depth -= 1
+            if depth < 0:
+                raise IndexError("`if` without a block (guard inside a macro call)")
+        elif depth == 0 and is_p(tt, "=") and j + 1 < len(toks) and is_p(toks[j + 1], ">") and not toks[j + 1].ws:
+            raise IndexError("`if` without a block (match-arm guard)")
         elif is_p(tt, "{") and depth == 0:
             # struct literal in condition is not allowed in Rust without parens, so this is the body
             return j
@@ -751,7 +793,12 @@ def rule_letchain(toks, au):
     i = 0
     while i < len(toks):
         if is_id(toks[i], "if") and (is_id(toks[i + 1], "let") or True):
-            j = _body_open(toks, i)
+            try:
+                j = _body_open(toks, i)
+            except IndexError:
+                # a match-arm guard / a guard inside matches!(): not a statement-level if
+                i += 1
+                continue
             cond = toks[i + 1:j]
             parts = split_top(cond, "&&")
             if len(parts) > 1 and any(p and is_id(p[0], "let") for p in parts):
